@@ -749,6 +749,37 @@ class Sym:
             return ('repeat', self.op_term(p, rv['op']), rv['n'])
         return ('unknown', rv.get('text'))
 
+    def apply_closure_value(self, path, args, block, depth=0):
+        """(result term, call effects) of `Fn::call(&closure, (a, b, ..))` when the closure is a known closure value of this
+        crate whose body is one straight path without writes; else None"""
+        facts = _TL.facts
+        if facts is None or len(args) != 2 or getattr(self, '_apply_depth', 0) > 3:
+            return None
+        cl = args[0]
+        while isinstance(cl, tuple) and cl and cl[0] in ('ref', 'deref'):
+            cl = cl[1]
+        if not (isinstance(cl, tuple) and len(cl) == 3 and cl[0] == 'closure'):
+            return None
+        cb = facts.body(cl[1])
+        tup = args[1]
+        if cb is None or cb.kind != 'closure' or not (isinstance(tup, tuple) and tup[0] == 'agg' and tup[1] == 'tuple'):
+            return None
+        env = {1: cl}
+        for i in range(len(tup[2])):
+            env[2 + i] = tup[2].get(str(i))
+        if cb.arg_count != 1 + len(tup[2]):
+            return None
+        cs = Sym(cb, max_paths=16)
+        cs._apply_depth = getattr(self, '_apply_depth', 0) + 1
+        try:
+            cs.run(env=env)
+        except Lost:
+            return None
+        cps = cs.complete_paths()
+        if len(cs.paths) != 1 or len(cps) != 1 or cps[0].conds or any(e[0] != 'call' for e in cps[0].effects):
+            return None
+        return cps[0].ret, [('call', e[1], e[2], block, e[4] if len(e) > 4 else None) for e in cps[0].effects]
+
     # -- writing ---------------------------------------------------------------------------------
     def assign(self, p, place, term, block):
         if not place['p']:
@@ -983,6 +1014,19 @@ class Sym:
                     path = c.get('resolved') or c['path']
                     term = ('call', path, tuple(args), b)
                     term = simplify_call(term, c, t)
+                    applied = self.apply_closure_value(path, args, b) if path.split('::')[-1] in ('call', 'call_mut', 'call_once') and c.get('trait', '').startswith('std::ops::Fn') else None
+                    if applied is not None:
+                        # calling a closure value that is known on this path (a predicate handed to a helper): its single
+                        # straight path is evaluated in place
+                        for e in applied[1]:
+                            p.effects.append(e)
+                        self.assign(p, t['dest'], applied[0], b)
+                        if t['target'] is None:
+                            p.end = 'diverge'
+                            self.paths.append(p)
+                        else:
+                            stack.append((t['target'], p))
+                        continue
                     summ = inline_summary(path) if (c.get('local') or c.get('resolved_local')) else None
                     if summ is not None:
                         # a new straight-line helper: splice its effects and use its return value
